@@ -61,7 +61,7 @@ namespace Givaro {
 
               Element& init (Element&) const;
 
-              __GIVARO_CONDITIONAL_TEMPLATE(Source, IS_UINT(Source) && (sizeof(Source) > sizeof(Storage_t)))
+              __GIVARO_CONDITIONAL_TEMPLATE(Source, IS_UINT(Source) && (sizeof(Source) >= sizeof(Storage_t)))
               inline Element& init (Element&, const Source) const;
 
               __GIVARO_CONDITIONAL_TEMPLATE(Source, IS_SINT(Source) && (sizeof(Source) > sizeof(Storage_t)))
@@ -76,12 +76,12 @@ namespace Givaro {
               inline Element& init (Element&, const Integer&) const final;
 
               __GIVARO_CONDITIONAL_TEMPLATE(Source, IS_UINT(Storage_t)
-                                            &&!(IS_INT(Source) && (sizeof(Source) > sizeof(Storage_t)))
+                                            &&!(IS_INT(Source) && (sizeof(Source) > sizeof(Storage_t))) &&!(IS_UINT(Source) && (sizeof(Source) == sizeof(Storage_t)))
                                             &&!(IS_FLOAT(Source) && (sizeof(Source) >= sizeof(Storage_t))))
               inline Element& init (Element&, const Source&) const;
 
               __GIVARO_CONDITIONAL_TEMPLATE(Source, IS_SINT(Storage_t)
-                                            &&!(IS_INT(Source) && (sizeof(Source) > sizeof(Storage_t)))
+                                            &&!(IS_INT(Source) && (sizeof(Source) > sizeof(Storage_t))) &&!(IS_UINT(Source) && (sizeof(Source) == sizeof(Storage_t)))
                                             &&!(IS_FLOAT(Source) && (sizeof(Source) >= sizeof(Storage_t))))
               inline Element& init (Element&, const Source&) const;
 
